@@ -10,7 +10,7 @@ from .cache_data import SeenSet, is_caching_enabled
 from .conclusion import Conclusion
 from .hashed_data import HashedIterable, HashedValue
 from .rxnode import ColorLegend
-from .symbolic import LogicalOperator, SymbolicExpression, ElseIf, Union as EQLUnion, Literal
+from .symbolic import LogicalOperator, SymbolicExpression, ElseIf, Union as EQLUnion, Literal, Flatten
 
 
 @dataclass(eq=False)
@@ -42,6 +42,11 @@ class ConclusionSelector(LogicalOperator, ABC):
             vars_ = conclusion._unique_variables_.filter(lambda v: not isinstance(v.value, Literal))
             required_vars.update(vars_)
         required_output = {k: v for k, v in output.items() if k in required_vars}
+        # an element flattened out of a collection is a value of its own, one parent has several of them.
+        for conclusion in conclusions:
+            for node in conclusion._all_nodes_:
+                if isinstance(node, Flatten) and node._id_ in output:
+                    required_output[node._id_] = output[node._id_]
         # the same values may be concluded upon by different branches, these are different conclusions.
         required_output[-1] = tuple(sorted(conclusion._id_ for conclusion in conclusions))
         if not self.concluded_before[not self._is_false_].check(required_output):
